@@ -12,8 +12,8 @@ import (
 	"os"
 	"path/filepath"
 	"strconv"
-	"sync"
 	"strings"
+	"sync"
 	"testing"
 	"time"
 
@@ -32,6 +32,7 @@ type c04Interp struct {
 	dupKey   bool
 	file     []byte
 	db       *DB
+	dbp      *DB // the same file opened with Prefetch(true), as the server does (epoch.go)
 	dir      string
 	caseName string
 	caseOps  []string
@@ -205,6 +206,11 @@ func (in *c04Interp) exec(line string) string {
 			return fmt.Sprintf("file %d %016x open=false", len(data), xxhash.Sum64(data))
 		}
 		in.db = db
+		in.dbp = nil
+		if dbp, err := Open(bytes.NewReader(data)); err == nil {
+			dbp.Prefetch(true)
+			in.dbp = dbp
+		}
 		in.s.Count("sealed-ok")
 		in.s.Add("keys-sealed", len(in.inserted))
 		return fmt.Sprintf("file %d %016x open=true", len(data), xxhash.Sum64(data))
@@ -225,6 +231,24 @@ func (in *c04Interp) exec(line string) string {
 			got = v
 			return "found " + zz.Hex(v)
 		})
+		// the prefetching reader (what the server uses) answers what the plain reader answers
+		if in.dbp != nil {
+			rp := withTimeout(2*time.Second, func() string {
+				v, err := in.dbp.Lookup(k)
+				if err != nil {
+					if IsNotFound(err) {
+						return "notfound"
+					}
+					return "err"
+				}
+				return "found " + zz.Hex(v)
+			})
+			in.s.Count("lookup-prefetch-twin")
+			if rp != r {
+				in.s.Violation(fmt.Sprintf("Lookup(%s) with Prefetch(true) answers %q, without it %q", w[1], rp, r),
+					"C04:prefetch-differs", in.replayOf("lookup "+w[1]))
+			}
+		}
 		// a value handed to the caller stays the caller's: the results of earlier lookups must still read what they read
 		// when they were returned (a reader that returns a slice of a reused buffer corrupts them)
 		for _, h := range in.held {
